@@ -1,5 +1,5 @@
 """Property -> harnesses registry."""
-import h_doc, h_c13, h_lib
+import h_doc, h_c13, h_lib, h_squash
 
 def doc(prog, tier):
     return h_doc.DocHarness(prog, tier)
@@ -39,7 +39,17 @@ def lib(prog, tier):
     return h_lib.LibHarness(prog, tier)
 LIB_SPEC = {'make': lib, 'time_limit': {'quick': 420, 'thorough': 2400}}
 
+def squash_graphs(prog, tier):
+    return h_squash.SquashHarness(prog, tier, 'graphs')
+def squash_chains(prog, tier):
+    return h_squash.SquashHarness(prog, tier, 'chains', name='squash_chains_depth_u8')
+SQUASH_SPECS = [{'make': squash_graphs, 'time_limit': {'quick': 420, 'thorough': 2400}}, {'make': squash_chains, 'time_limit': {'quick': 300, 'thorough': 900}}]
+
 PROPS = {
+    'C17': {'specs': SQUASH_SPECS, 'notes': COMMON + [
+        'depth is a symbolic u8: 0..3 (quick) / 0..6 (thorough) on arbitrary reference graphs, all 256 values on chains and self-loops',
+        'oracle: independent recursive expansion over the collected trees of the notes (sibling order not constrained: the statement does not fix it)',
+        'termination = the call-depth bound of the executor is never hit; the CLI rebuild (build_key_from_iter over the squashed tree) must give the same tree']},
     'C04': {'specs': [LIB_SPEC], 'notes': COMMON + [
         'the Markdown text parser is the stubbed environment: MarkdownReader::document returns the Document chosen for a content token, so '
         '"fresh import of the final texts" is well defined; everything else (import, update_key, delete_branch, index, paths, lookups) is real MIR',
